@@ -36,9 +36,12 @@ namespace
     // (all markers and codes below 0x80) and an HDLC-like one (start == stop, below 0x80)
     const Alphabet ALPHA_PRINT = {'{', '}', '\\', '(', ')', '/'};
     const Alphabet ALPHA_HDLC = {0x7E, 0x7E, 0x7D, 0x5E, 0x5E, 0x5D};
-    enum { VAR_CFG_V1 = 0, VAR_CFG_V0 = 1, VAR_LEGACY = 2, VAR_CFG_PRINT = 3, VAR_CFG_HDLC = 4, VAR_N = 5 };
-    const char *VAR_NAME[] = {"configurable/v1-alphabet", "configurable/v0-alphabet(start==stop)", "legacy-c", "configurable/printable-alphabet", "configurable/hdlc-like-alphabet(start==stop)"};
-    const Alphabet &alpha_of(int v) { return v == VAR_CFG_V1 ? ALPHA_V1 : v == VAR_CFG_PRINT ? ALPHA_PRINT : v == VAR_CFG_HDLC ? ALPHA_HDLC : ALPHA_V0; }
+    // ... and one in which the stuffing byte escapes itself by doubling (code for the stuffing byte == the stuffing byte)
+    const Alphabet ALPHA_DOUBLING = {'[', ']', '%', '<', '>', '%'};
+    enum { VAR_CFG_V1 = 0, VAR_CFG_V0 = 1, VAR_LEGACY = 2, VAR_CFG_PRINT = 3, VAR_CFG_HDLC = 4, VAR_CFG_DOUBLING = 5, VAR_N = 6 };
+    const char *VAR_NAME[] = {"configurable/v1-alphabet", "configurable/v0-alphabet(start==stop)", "legacy-c", "configurable/printable-alphabet", "configurable/hdlc-like-alphabet(start==stop)",
+                              "configurable/doubling-alphabet(stuffing byte escapes itself)"};
+    const Alphabet &alpha_of(int v) { return v == VAR_CFG_V1 ? ALPHA_V1 : v == VAR_CFG_PRINT ? ALPHA_PRINT : v == VAR_CFG_HDLC ? ALPHA_HDLC : v == VAR_CFG_DOUBLING ? ALPHA_DOUBLING : ALPHA_V0; }
     gstuff_context ctx_of(int v)
     {
         if (v == VAR_CFG_V1) return gstuff_context();
@@ -147,27 +150,37 @@ namespace
         }
         size_t stored() override { return r.size(); }
         void touch() override { (void)r.cstr(); }
-        void relocate(int how) override
+        // (templates: a receiver class that is not copy-assignable / not copyable any more simply does not get that form)
+        template <class R> static bool relocate_by_assignment(R &r, uint8_t *buf, int cap)
         {
-            if (how % 2 == 0)
-            {
-                // copy construction to the new place, the old object dies (what a growing std::vector of receivers does)
-                alignas(gstuff_autorecv) unsigned char elsewhere[sizeof(gstuff_autorecv)];
-                gstuff_autorecv *moved = new (elsewhere) gstuff_autorecv(r);
-                r.~gstuff_autorecv();
-                memset((void *)&r, 0xEE, sizeof r);
-                new (&r) gstuff_autorecv(*moved);
-                moved->~gstuff_autorecv();
-            }
-            else
+            if constexpr (std::is_copy_assignable<R>::value && std::is_copy_constructible<R>::value)
             {
                 // assignment into another, already initialised receiver object and back
-                gstuff_autorecv other(r);
-                gstuff_autorecv blank(other);
-                blank.init(buf.get(), cap);
+                R other(r);
+                R blank(other);
+                blank.init(buf, cap);
                 r = blank;
                 r = other;
+                return true;
             }
+            return false;
+        }
+        template <class R> static void relocate_by_copy(R &r)
+        {
+            if constexpr (std::is_copy_constructible<R>::value)
+            {
+                // copy construction to the new place, the old object dies (what a growing std::vector of receivers does)
+                alignas(R) unsigned char elsewhere[sizeof(R)];
+                R *moved = new (elsewhere) R(r);
+                r.~R();
+                memset((void *)&r, 0xEE, sizeof r);
+                new (&r) R(*moved);
+                moved->~R();
+            }
+        }
+        void relocate(int how) override
+        {
+            if (how % 2 == 0 || !relocate_by_assignment(r, buf.get(), cap)) relocate_by_copy(r);
         }
         void restart(int how, int newcap = 0) override
         {
@@ -674,6 +687,8 @@ namespace
             int style = (int)r.below(6);
             int n = (int)r.below((uint64_t)maxlen + 1);
             if (r.chance(1, 10)) n = 0;
+            // (payload + CRC of exactly 256 or 512 bytes, and their neighbours, when the traffic has long frames at all)
+            if (maxlen >= 512 && r.chance(1, 3)) n = (int)r.pick<int64_t>({254, 255, 256, 257, 510, 511, 512});
             Bytes p;
             const uint8_t sp[] = {a.START, a.STOP, a.STUB, a.C_START, a.C_STOP, a.C_STUB, 0x00, 0xFF};
             for (int i = 0; i < n; i++)
